@@ -392,6 +392,7 @@ def run(F, R, tier):
             "the normalisation of alpha_h to beta - alpha_h in [-pi/2, pi/2] changed: %s" % why, key="R7|alpha_h")
 
     # ---- R9 a model is built from its own inputs only ---------------------------------------------------------------------
+    R.guard(_fresh_yukawas, F, R)
     R.rule("R9", "no static-storage variable of the THDM model code is initialised from run-time values (a `static const` built from the "
                  "first model's SM input or CKM matrix would be reused by every model constructed later in the process)", 3)
     for key, g in sorted(F.globals.items()):
@@ -502,3 +503,48 @@ def run(F, R, tier):
         R.soft_broken("R6: %s" % ex)
     except AnalysisBroken as ex:
         R.soft_broken(str(ex))
+
+
+def _fresh_yukawas(F, R):
+    """typestate: the Yukawa matrices Gamma_f / Pi_f are derived by init_yukawas() from v1, v2, the Yukawa type, zeta_f and
+    Pi_f(input); an operation that writes one of these inputs and then computes the spectrum must re-derive them in between"""
+    from .rules_c16 import FieldFlow
+    from .facts import walk as _walk, is_call as _is_call
+    R.rule("R10", "every THDM operation that writes an input of init_yukawas() (v1, v2, Yukawa parameters) and then computes the "
+                  "spectrum calls init_yukawas() between the last such write and the spectrum calculation: the fermion mass matrices "
+                  "are never built from Yukawa couplings that belong to other vacuum expectation values", 2)
+    FW = FieldFlow(F)
+    iy = F.fn("gm2calc::THDM::init_yukawas")
+    reads = set(FW.reads(iy["body"])) - set(FW.writes(iy["body"]))
+    reads = {x for x in reads if re.search(r"::(v1|v2|zeta_[udl]|yukawa_type|Pi_[udl])$", x)}
+    if not any(x.endswith("::v1") for x in reads):
+        R.broken("R10: init_yukawas no longer reads v1 (%s)" % sorted(reads))
+        return
+    calc = F.fn("gm2calc::THDM_mass_eigenstates::calculate_MSbar_masses")["mg"]
+    n_ops = 0
+    for key, f in sorted(F.functions.items()):
+        if (f.get("method") or {}).get("cls") != "gm2calc::THDM" or f is iy or f.get("body") is None:
+            continue
+        stmts = f["body"].get("c", [])
+        clos = [FW.stmt_closure(st) | {n.get("mg") for n in _walk(st) if _is_call(n)} for st in stmts]
+        mass = [i for i, c in enumerate(clos) if calc in c]
+        if not mass:
+            continue
+        wr = [i for i, st in enumerate(stmts) if FW.writes(st) & reads and iy["mg"] not in clos[i]]
+        if not wr:
+            continue
+        n_ops += 1
+        last_w = max(i for i in wr if i <= mass[-1]) if any(i <= mass[-1] for i in wr) else None
+        if last_w is None:
+            continue
+        first_mass = min(i for i in mass if i >= last_w)
+        ok = any(iy["mg"] in clos[j] for j in range(last_w, first_mass + 1))
+        who = sorted(x.split("::")[-1] for x in (FW.writes(stmts[last_w]) & reads))
+        R.check("R10", ok, "%s(%s): init_yukawas between the write of %s and calculate_MSbar_masses"
+                % (f["name"].split("::")[-1], ", ".join((p["t"] or "").split("::")[-1] for p in f["params"]), ", ".join(who)),
+                F.loc(f, stmts[last_w]),
+                "%s writes %s and recomputes the spectrum without re-deriving the Yukawa matrices: the fermion masses no longer "
+                "equal the SM input masses" % (f["name"].split("::")[-1], ", ".join(who)),
+                key="R10|%s|%d" % (f["name"], len(f["params"])))
+    if n_ops < 2:
+        R.broken("R10: only %d THDM operations write Yukawa inputs and compute the spectrum (two set_basis expected)" % n_ops)
